@@ -85,6 +85,7 @@ func genC01(t *rapid.T) c01Case {
 	}
 	if rapid.IntRange(0, 5).Draw(t, "defaultname") == 0 {
 		c.Cfgs[0].Filename = ""
+		c.Cfgs[0].PkgLevel = rapid.Bool().Draw(t, "pkglevel") // package-level functions; only honoured when no Update option is needed
 	}
 	for range c.Cfgs {
 		if rapid.IntRange(0, 2).Draw(t, "hasinitial") > 0 {
